@@ -890,6 +890,8 @@ class Model:
         for arm in m["arms"]:
             pat = arm["pat"].strip()
             body = arm["body"].replace(" ", "")
+            while body.startswith("{") and body.endswith("}"):
+                body = body[1:-1]
             if arm["guard"]:
                 raise Untranslatable(owner, "guarded arm in byte table")
             if pat == "_":
@@ -909,6 +911,8 @@ class Model:
                 mm = re.search(r"(?:Ok\()?(?:\w+::)*(\w+)(\(.*)?\)?$", body)
                 name = re.sub(r"^Ok\(", "", body)
                 name = name.split("(")[0].split("::")[-1].rstrip(")")
+                if not re.match(r"^\w+$", name):
+                    raise Untranslatable(owner, f"odd arm body {arm['body']}")
                 res = {"variant": name, "wraps_try": "try_from" in body}
             arms.append({"lo": lo, "hi": hi, **res})
         return arms
